@@ -14,6 +14,6 @@ CONSTANTS
   Plan = "W"
   ExportMod = 0
   ExportSeed = 0
-  Repaired = {}
+  Repaired = {"post_form", "dup_keyorder", "bare_colon", "goquote"}
 INVARIANTS CodedEqDef
 CHECK_DEADLOCK FALSE
